@@ -74,8 +74,14 @@ def cloop {σ} (o : DOracle σ) (buf : Bytes) :
 def lenPrefix (n : Nat) : Bytes := Prim.encU32BE (UInt32.ofNat n)
 
 /-- `zlib_compress(uncompressed)`: prefix, then everything the loops collect.
-Returns the blob and the call log. -/
+Returns the blob and the call log.
+
+`auto* ptr = &uncompressed[0];` — `operator[]` on an EMPTY vector violates its precondition
+(`__n < this->size()`; an abort under `_GLIBCXX_ASSERTIONS`, which is how the harness is built), so the
+empty payload is `ub oob_index`.  No codec reaches it: every payload handed to `zlib_compress` has at
+least 25 bytes (`Proofs/ZlibCompressChunks.lean`, `*_payload_nonempty`). -/
 def compress {σ} (o : DOracle σ) (s0 : σ) (fuel : Nat) (buf : Bytes) : Res (Bytes × List DCall) :=
+  if buf.length = 0 then .ub .oob_index else
   match cloop o buf fuel s0 0 .outer [] [] with
   | .ok (acc, log) => .ok (lenPrefix buf.length ++ acc, log)
   | .throw e => .throw e
